@@ -48,3 +48,33 @@ def bit_indices(nhash, tweak, nbits, data):
 def encode(vdata, nhash, tweak, flags):
     from .wire import varbytes
     return varbytes(bytes(vdata)) + struct.pack('<IIB', nhash, tweak, flags)
+
+
+def _inv32(a):
+    return pow(a, -1, 1 << 32)
+
+
+def rotr(x, r):
+    return ((x >> r) | (x << (32 - r))) & M32
+
+
+def steer_first_block(seed, target):
+    """The 4-byte block that, hashed first under `seed`, brings the accumulator to the point where
+    (h*5) mod 2**32 == target just before the constant 0xe6546b64 is added - so that the addition lands
+    exactly on a chosen value (2**32 for target 0x19ab949c: the carry boundary; 2**32-1; 0 ...).
+    Every step of the block function is a bijection on 32-bit words and is inverted here."""
+    h_rot = (target * _inv32(5)) & M32
+    h_x = rotr(h_rot, 13)
+    k = h_x ^ (seed & M32)
+    k = (k * _inv32(0x1b873593)) & M32
+    k = rotr(k, 15)
+    k = (k * _inv32(0xcc9e2d51)) & M32
+    blk = k.to_bytes(4, 'little')
+    # self-check against the forward function
+    kk = (k * 0xcc9e2d51) & M32
+    kk = rotl(kk, 15)
+    kk = (kk * 0x1b873593) & M32
+    hh = rotl((seed & M32) ^ kk, 13)
+    if (hh * 5) & M32 != target & M32:
+        raise AssertionError('steering failed')
+    return blk
